@@ -8,19 +8,31 @@
 (* monitor (MainLoopOps!JudgeM); TLC checks all sessions x fault points within bounds, and   *)
 (* that deliberately wrong main loops (Bad: no stop on error, unhandled input skipped, no    *)
 (* redraw, topmost widget looked up once per batch, incomplete-sequence timer left armed or  *)
-(* never armed)                                                                              *)
-(* are refuted.  Sessions are exported to drive the real MainLoop (spec -> code).            *)
+(* never armed, signal dispositions "restored" to the default action, a forced repaint       *)
+(* ignored because the canvas is the one drawn last, an event loop that cannot remove a      *)
+(* watch on file descriptor 0) are refuted.  A session also fixes the signal dispositions    *)
+(* found before run(), the descriptor the terminal input is on, and whether run() is called  *)
+(* a second time on the same MainLoop.  The screen's buffer of what the terminal shows and   *)
+(* the loop's table of watched descriptors are part of the state.                            *)
+(* Sessions are exported to drive the real MainLoop (spec -> code).                          *)
 EXTENDS MainLoopOps, FiniteSets
 
 CONSTANTS MaxEvents, Kinds, Times, FaultKinds, Bad,
           Cuts,      \* 0: the bytes of an input arrive in one read; k > 0: its first k bytes arrive, the rest Gap later (a second read)
           Also,      \* "-", or an input that arrives just before the event's own input in the SAME read (typed ahead, pasted)
-          Swaps      \* "none", or the callback from which the application replaces the topmost widget (loop.widget = other view), once
+          Swaps,     \* "none", or the callback from which the application replaces the topmost widget (loop.widget = other view), once
+          Sig0,      \* dispositions of SIGWINCH / SIGTSTP / SIGCONT before run(): "ign", "dfl", "py" (a Python handler)
+          InFds,     \* file descriptors the terminal input may be on (0: standard input, how applications normally run)
+          Again      \* subset of BOOLEAN: is run() called a second time on the same MainLoop once the first run is over
 
 VARIABLES scn, m, why, pc, rest, cnt, tty, sigs, steps,
           pend,      \* the input whose first bytes the screen holds while it waits for the rest ("-": none)
-          clock      \* the time
-vars == <<scn, m, why, pc, rest, cnt, tty, sigs, steps, pend, clock>>
+          clock,     \* the time
+          scr,       \* the screen's idea of what the terminal shows: valid (FALSE: a full repaint was asked for), gen (the canvas drawn last)
+          cols,      \* columns of the terminal now
+          hooks,     \* descriptors the event loop watches for the screen
+          ran        \* run() has been called a second time
+vars == <<scn, m, why, pc, rest, cnt, tty, sigs, steps, pend, clock, scr, cols, hooks, ran>>
 
 W == 12
 H == 3
@@ -51,7 +63,10 @@ Legal(es) ==
 EventSeqs == UNION {[1..n -> [at : Times, kind : Kinds, cut : Cuts, also : Also]] : n \in 0..MaxEvents}
 Faults == {[kind |-> "none", idx |-> 0, exc |-> "exit"]} \cup
           [kind : FaultKinds \ {"none"}, idx : 1..2, exc : {"exit", "error"}]
-Scenarios == {[events |-> es, fault |-> f, popups |-> p, swap |-> sw] : es \in {e \in EventSeqs : Legal(e)}, f \in Faults, p \in {FALSE}, sw \in Swaps}
+\* a second run() continues the session; what the screen keeps of a half-typed sequence across two runs is not part of the property
+Plainly(es) == \A i \in 1..Len(es) : es[i].cut = 0 /\ es[i].kind # "esc"
+Scenarios == {sc \in [events : {e \in EventSeqs : Legal(e)}, fault : Faults, popups : {FALSE}, swap : Swaps, sig0 : Sig0, infd : InFds, again : Again] :
+                sc.again => Plainly(sc.events)}
 
 \* the session as a timeline: one entry per read / alarm / pipe write / resize; ph = 1, 2: first and second read of a split input
 Ph(e, p) == [at |-> IF p = 2 THEN e.at + Gap ELSE e.at, kind |-> e.kind, cut |-> e.cut, also |-> e.also, ph |-> p]
@@ -80,7 +95,7 @@ SkipU == Bad = "skipUnhandled"
 Dispatch(k) ==
   CASE k = "a" -> <<Key("a", TRUE)>>
     [] k = "q" -> <<Key("q", FALSE)>> \o (IF SkipU THEN <<>> ELSE <<Unh("q")>>)
-    [] k = "ctrl l" -> <<Key("ctrl l", FALSE)>>              \* REDRAW_SCREEN command: screen.clear(), not passed on
+    [] k = "ctrl l" -> <<Key("ctrl l", FALSE), Plain([t |-> "clear"])>>      \* REDRAW_SCREEN command: screen.clear(), not passed on
     [] k = "mouse press 1 2 1" -> <<Mouse(k, TRUE)>>
     [] k = "mouse press 3 3 0" -> <<Mouse(k, FALSE), Unh(k)>>
     [] OTHER -> <<Key(k, FALSE), Unh(k)>>
@@ -100,6 +115,13 @@ Read(atoms, partial) ==
            [] OTHER -> <<>>)
      \o <<Filt(ks, out)>> \o DispatchAll(out)
 
+\* a resize toggles the terminal between W and W - 2 columns
+OtherCols == IF cols = W THEN W - 2 ELSE W
+\* the canvas of the probe widget: "g<generation>" on the first row, blanks elsewhere (code points)
+RECURSIVE Digits(_)
+Digits(n) == IF n < 10 THEN <<48 + n>> ELSE Digits(n \div 10) \o <<48 + (n % 10)>>
+Canvas(g, w) == LET t == <<103>> \o Digits(g) IN [y \in 1..H |-> [x \in 1..w |-> IF y = 1 /\ x <= Len(t) THEN t[x] ELSE 32]]
+
 \* what Screen + MainLoop do, callback by callback, for one timeline entry
 Micro(e) ==
   LET pre == IF e.also = "-" THEN <<>> ELSE <<e.also>>
@@ -110,9 +132,9 @@ Micro(e) ==
        \* the wait is over: what the screen holds is all there is.  A timer that was left armed although its sequence has
        \* been completed and delivered (Bad = "staleInputTimer") decodes its old bytes again: a key nobody typed
        [] e.kind = "itimer" -> <<Filt(<<"esc">>, <<"esc">>)>> \o Dispatch("esc")
-       [] e.kind = "resize" -> <<Plain([t |-> "arrive_resize"]), Filt(<<"window resize">>, <<"window resize">>)>>
-       [] e.kind = "alarm"  -> <<[cb |-> "alarm", ev |-> [t |-> "alarm"]]>>
-       [] e.kind = "pipe"   -> <<[cb |-> "pipe", ev |-> [t |-> "pipe"]]>>
+       [] e.kind = "resize" -> <<Plain([t |-> "arrive_resize", w |-> OtherCols, h |-> H]), Filt(<<"window resize">>, <<"window resize">>)>>
+       [] e.kind = "alarm"  -> <<[cb |-> "alarm", ev |-> [t |-> "alarm", changes |-> TRUE]]>>      \* changes is filled in by RunMicro
+       [] e.kind = "pipe"   -> <<[cb |-> "pipe", ev |-> [t |-> "pipe", changes |-> TRUE]]>>
        [] e.kind = "exitalarm" -> <<Plain([t |-> "raise", kind |-> "exit"])>>
        [] OTHER -> <<>>
 
@@ -125,7 +147,9 @@ RunMicro(ops, i, c, acc, top, top0) ==
            c2 == IF op.cb = "" THEN c ELSE [c EXCEPT ![op.cb] = @ + 1]
            hit == op.cb # "" /\ scn.fault.kind = op.cb /\ scn.fault.idx = c2[op.cb]
            isExit == op.ev.t = "raise"
-           ev == IF op.cb \in {"keypress", "mouse_event"} THEN [op.ev EXCEPT !.w = IF Bad = "staleTop" THEN top0 ELSE top] ELSE op.ev
+           ev == IF op.cb \in {"keypress", "mouse_event"} THEN [op.ev EXCEPT !.w = IF Bad = "staleTop" THEN top0 ELSE top]
+                 ELSE IF op.cb \in {"alarm", "pipe"} THEN [op.ev EXCEPT !.changes = ~hit]      \* a callback that raises changes nothing
+                 ELSE op.ev
            swaps == op.cb # "" /\ op.cb = scn.swap /\ top = 1 /\ ~hit
        IN IF hit THEN [evs |-> acc \o <<ev, [t |-> "raise", kind |-> scn.fault.exc]>>, cnt |-> c2, raised |-> scn.fault.exc]
           ELSE IF isExit THEN [evs |-> Append(acc, ev), cnt |-> c2, raised |-> "exit"]
@@ -138,31 +162,45 @@ StopTokens == <<[t |-> "decset", n |-> 1006, on |-> FALSE], [t |-> "decset", n |
                 [t |-> "decset", n |-> 1000, on |-> FALSE], [t |-> "si"], [t |-> "decset", n |-> 1049, on |-> FALSE],
                 [t |-> "decset", n |-> 25, on |-> TRUE]>>
 
+NoScreen == [valid |-> FALSE, gen |-> -1]
 Init == /\ scn \in Scenarios
         /\ m = InitM(W, H) /\ why = "-" /\ pc = "init"
         /\ rest = Timeline(scn.events)
         /\ cnt = [c \in Callbacks |-> 0]
-        /\ tty = "cooked" /\ sigs = "orig" /\ steps = 0 /\ pend = "-" /\ clock = 0
+        /\ tty = "cooked" /\ sigs = scn.sig0 /\ steps = 0 /\ pend = "-" /\ clock = 0
+        /\ scr = NoScreen /\ cols = W /\ hooks = {} /\ ran = FALSE
 
 Emit(evs) == LET r == FoldM(m, evs, 1) IN m' = r.m /\ why' = r.why
 
+\* the event loop's table of watched descriptors.  The wrong loop "fdZeroIsNone" tests the descriptor it looks up for truth
+\* before it removes the watch: descriptor 0 is forgotten by the adapter but stays registered underneath
+Unhook(hs, fd) == IF Bad = "fdZeroIsNone" /\ fd = 0 THEN hs ELSE hs \ {fd}
+\* screen.start(): modes, tty, signal handlers; MainLoop.start(): the input descriptor is watched (anything left from an earlier
+\* run is unhooked first)
 Start == /\ pc = "init"
          /\ Emit(StartTokens)
          /\ tty' = "cbreak" /\ sigs' = "ours" /\ pc' = "idle"
-         /\ UNCHANGED <<scn, rest, cnt, pend, clock>>
+         /\ scr' = NoScreen /\ hooks' = Unhook(hooks, scn.infd) \cup {scn.infd}
+         /\ UNCHANGED <<scn, rest, cnt, pend, clock, cols, ran>>
 
-\* entering_idle: render the top widget and draw it
+\* entering_idle: render the top widget and draw it.  draw_screen returns at once when it is handed the very canvas it drew last
+\* AND still knows what the terminal shows; the wrong screen "cachedCanvasOnly" looks at the canvas only, so a forced repaint
+\* (ctrl-L, a new alternate buffer, a resize to the same size) of an unchanged widget paints nothing
 Idle == /\ pc = "idle"
         /\ LET r == RunMicro(<<[cb |-> "render", ev |-> [t |-> "slow", d |-> 0]]>>, 1, cnt, <<>>, m.top, m.top)
+               rows == Canvas(m.gen, cols)
+               quick == scr.gen = m.gen /\ (scr.valid \/ Bad = "cachedCanvasOnly")
            IN /\ cnt' = r.cnt
-              /\ IF r.raised # "" THEN Emit(r.evs) /\ pc' = r.raised
-                 ELSE Emit(r.evs \o (IF Bad = "noRedraw" THEN <<>> ELSE <<[t |-> "draw", gen |-> m.gen]>>)) /\ pc' = "wait"
-        /\ UNCHANGED <<scn, rest, tty, sigs, pend, clock>>
+              /\ IF r.raised # "" THEN Emit(r.evs) /\ pc' = r.raised /\ scr' = scr
+                 ELSE IF Bad = "noRedraw" THEN Emit(r.evs) /\ pc' = "wait" /\ scr' = scr
+                 ELSE /\ Emit(r.evs \o (IF quick THEN <<>> ELSE <<[t |-> "paint", rows |-> rows]>>) \o <<[t |-> "draw", gen |-> m.gen, rows |-> rows]>>)
+                      /\ pc' = "wait" /\ scr' = [valid |-> TRUE, gen |-> m.gen]
+        /\ UNCHANGED <<scn, rest, tty, sigs, pend, clock, cols, hooks, ran>>
 
 Wait == /\ pc = "wait" /\ rest # <<>>
         /\ Emit(<<[t |-> "wait", timeout |-> Head(rest).at - clock, ready |-> <<>>, grace |-> 0], [t |-> "advance", to |-> Head(rest).at]>>)
-        /\ pc' = "serve" /\ clock' = Head(rest).at
-        /\ UNCHANGED <<scn, rest, cnt, tty, sigs, pend>>
+        /\ pc' = "serve" /\ clock' = IF Head(rest).at > clock THEN Head(rest).at ELSE clock
+        /\ UNCHANGED <<scn, rest, cnt, tty, sigs, pend, scr, cols, hooks, ran>>
 
 Serve == /\ pc = "serve" /\ rest # <<>>
          /\ LET e == Head(rest)
@@ -179,46 +217,72 @@ Serve == /\ pc = "serve" /\ rest # <<>>
                /\ pc' = IF r.raised # "" THEN r.raised ELSE IF more THEN "serve" ELSE "idle"
                /\ rest' = rest2
                /\ pend' = IF starts THEN e.kind ELSE IF completes \/ e.kind = "itimer" THEN "-" ELSE pend
-         /\ UNCHANGED <<scn, tty, sigs, clock>>
+               \* screen.clear() and the SIGWINCH handler make the screen forget what the terminal shows
+               /\ scr' = IF \E i \in 1..Len(r.evs) : r.evs[i].t \in {"clear", "arrive_resize"} THEN [scr EXCEPT !.valid = FALSE] ELSE scr
+               /\ cols' = IF e.kind = "resize" THEN OtherCols ELSE cols
+         /\ UNCHANGED <<scn, tty, sigs, clock, hooks, ran>>
 
-\* ExitMainLoop: event_loop.run() returns, MainLoop.stop() -> screen.stop()
+\* signal_restore(): what was found before run() comes back.  The wrong screen "restoreDefault" puts back only what is callable
+RestoredSig == IF Bad = "restoreDefault" /\ scn.sig0 # "py" THEN "dfl" ELSE scn.sig0
+Final(ok, sg) == [t |-> "final", termios_same |-> ok, sigs_before |-> <<scn.sig0, scn.sig0, scn.sig0>>, sigs_after |-> <<sg, sg, sg>>, started |-> ~ok]
+After == IF scn.again /\ ~ran THEN "again" ELSE "done"
+\* ExitMainLoop: event_loop.run() returns, MainLoop.stop(): the input descriptor is unhooked, then screen.stop()
 ExitPath == /\ pc = "exit"
-            /\ Emit(<<[t |-> "run_end", outcome |-> "return", exc |-> ""]>> \o StopTokens
-                    \o <<[t |-> "final", termios_same |-> TRUE, signals_same |-> TRUE, started |-> FALSE]>>)
-            /\ tty' = "cooked" /\ sigs' = "orig" /\ pc' = "done"
-            /\ UNCHANGED <<scn, rest, cnt, pend, clock>>
-\* any other exception: except: screen.stop(); raise
+            /\ Emit(<<[t |-> "run_end", outcome |-> "return", exc |-> ""]>> \o StopTokens \o <<Final(TRUE, RestoredSig)>>)
+            /\ tty' = "cooked" /\ sigs' = RestoredSig /\ pc' = After
+            /\ hooks' = Unhook(hooks, scn.infd)
+            /\ UNCHANGED <<scn, rest, cnt, pend, clock, scr, cols, ran>>
+\* any other exception: except: screen.stop(); raise.  MainLoop is still listening for "input descriptors changed", which
+\* screen.stop() announces first of all: the descriptor is unhooked and hooked again -- and a loop that still has it fails there,
+\* in the middle of screen.stop(), with an exception of its own
 ErrorPath == /\ pc = "error"
-             /\ LET stops == Bad # "noStopOnError"
-                IN /\ Emit(<<[t |-> "run_end", outcome |-> "raise", exc |-> "VfError"]>> \o (IF stops THEN StopTokens ELSE <<>>)
-                           \o <<[t |-> "final", termios_same |-> stops, signals_same |-> stops, started |-> ~stops]>>)
+             /\ LET left == Unhook(hooks, scn.infd)
+                    twice == scn.infd \in left
+                    stops == Bad # "noStopOnError" /\ ~twice
+                IN /\ Emit(<<[t |-> "run_end", outcome |-> "raise", exc |-> IF twice THEN "ValueError" ELSE "VfError"]>> \o (IF stops THEN StopTokens ELSE <<>>)
+                           \o <<Final(stops, IF stops THEN RestoredSig ELSE "ours")>>)
                    /\ tty' = IF stops THEN "cooked" ELSE tty
-                   /\ sigs' = IF stops THEN "orig" ELSE sigs
-             /\ pc' = "done"
-             /\ UNCHANGED <<scn, rest, cnt, pend, clock>>
+                   /\ sigs' = IF stops THEN RestoredSig ELSE sigs
+                   /\ hooks' = left \cup {scn.infd}
+             /\ pc' = After
+             /\ UNCHANGED <<scn, rest, cnt, pend, clock, scr, cols, ran>>
+\* run() is called again on the same MainLoop object: the session goes on (what was scheduled and has not happened yet still
+\* happens), with an exit alarm of its own
+Rerun == /\ pc = "again"
+         /\ Emit(<<[t |-> "rerun"]>>)
+         /\ rest' = InsertByTime(rest, Entry(clock + ExitAt, "exitalarm"))
+         /\ ran' = TRUE /\ pc' = "init"
+         /\ UNCHANGED <<scn, cnt, tty, sigs, pend, clock, scr, cols, hooks>>
 
 Next == /\ why = "-" /\ steps' = steps + 1
-        /\ (Start \/ Idle \/ Wait \/ Serve \/ ExitPath \/ ErrorPath)
+        /\ (Start \/ Idle \/ Wait \/ Serve \/ ExitPath \/ ErrorPath \/ Rerun)
 Spec == Init /\ [][Next]_vars
 
 \* behaviour export: scenario drawn at random in the first step (see EventLoop.tla)
-RandomEvents(n) == [i \in 1..n |-> [at |-> RandomElement(Times), kind |-> RandomElement(Kinds), cut |-> RandomElement(Cuts), also |-> RandomElement(Also)]]
+\* (operators with a parameter that the body uses: a constant-level expression is evaluated once per TLC run, see EventLoop.tla)
+Pick(S, k) == RandomElement({x \in S : k >= 0})
+RandomEvents(n, k) == [i \in 1..n |-> [at |-> Pick(Times, k), kind |-> Pick(Kinds, k), cut |-> Pick(Cuts, k), also |-> Pick(Also, k)]]
 SortSeqBy(es) == SortSeq(es, LAMBDA a, b : a.at < b.at)
 \* a random draw is made legal: impossible cuts / companions are dropped; if what is left is still ambiguous, the session is typed plainly
 Norm(e) == [e EXCEPT !.cut = IF e.kind \in Splittable /\ @ < NBytes(e.kind) THEN @ ELSE 0, !.also = IF e.kind \in InputKinds THEN @ ELSE "-"]
 PlainEv(e) == [e EXCEPT !.cut = 0, !.also = "-", !.kind = IF @ = "esc" THEN "keyU" ELSE @]
 Sanitize(es) == LET n == [i \in DOMAIN es |-> Norm(es[i])] IN IF Legal(n) THEN n ELSE [i \in DOMAIN es |-> PlainEv(n[i])]
-SimInit == /\ scn = [events |-> <<>>, fault |-> [kind |-> "none", idx |-> 0, exc |-> "exit"], popups |-> FALSE, swap |-> "none"]
+SimInit == /\ scn = [events |-> <<>>, fault |-> [kind |-> "none", idx |-> 0, exc |-> "exit"], popups |-> FALSE, swap |-> "none",
+                     sig0 |-> "dfl", infd |-> 3, again |-> FALSE]
            /\ m = InitM(W, H) /\ why = "-" /\ pc = "choose" /\ rest = <<>>
-           /\ cnt = [c \in Callbacks |-> 0] /\ tty = "cooked" /\ sigs = "orig" /\ steps = 0 /\ pend = "-" /\ clock = 0
+           /\ cnt = [c \in Callbacks |-> 0] /\ tty = "cooked" /\ sigs = "dfl" /\ steps = 0 /\ pend = "-" /\ clock = 0
+           /\ scr = NoScreen /\ cols = W /\ hooks = {} /\ ran = FALSE
 Choose == /\ pc = "choose"
-          /\ scn' = [events |-> Sanitize(SortSeqBy(RandomEvents(RandomElement(1..MaxEvents)))), fault |-> RandomElement(Faults),
-                     popups |-> RandomElement(BOOLEAN), swap |-> RandomElement(Swaps)]
+          \* (a session drawn with `again` and a half-typed sequence is run once: the driver drops `again`, as Scenarios does)
+          /\ scn' = [events |-> Sanitize(SortSeqBy(RandomEvents(Pick(1..MaxEvents, steps), steps))), fault |-> Pick(Faults, steps),
+                     popups |-> Pick(BOOLEAN, steps), swap |-> Pick(Swaps, steps), sig0 |-> Pick(Sig0, steps), infd |-> Pick(InFds, steps),
+                     again |-> Pick(Again, steps)]
           /\ rest' = Timeline(scn'.events)
+          /\ sigs' = scn'.sig0
           /\ pc' = "init"
-          /\ UNCHANGED <<m, why, cnt, tty, sigs, steps, pend, clock>>
+          /\ UNCHANGED <<m, why, cnt, tty, steps, pend, clock, scr, cols, hooks, ran>>
 SimSpec == SimInit /\ [][Choose \/ Next]_vars
 
 MonitorAccepts == why = "-"
-DoneMeansRestored == pc = "done" => (tty = "cooked" /\ sigs = "orig" /\ m.term.curs /\ m.term.modes = {})
+DoneMeansRestored == pc \in {"done", "again"} => (tty = "cooked" /\ sigs = scn.sig0 /\ m.term.curs /\ m.term.modes = {})
 ===============================================================================
